@@ -189,3 +189,13 @@ def same_expr(a, b):
     if a is None or isinstance(a, (str, int)):
         return z3.BoolVal(a == b)
     return z3.BoolVal(a is b)
+
+
+def stores_nothing_on_the_component(fv, ex, extra_roots=()):
+    """C19 at statement level: on NO path of the executed elaborate() is an attribute of the component (or of an object reached from it)
+    re-bound.  (Item stores and mutating method calls on such objects are outside the stubs' vocabulary and make the run `unsupported`;
+    consuming a one-shot iterator kept on the component mutates without a store and is NOT excluded by this clause.)"""
+    roots = ("self",) + tuple(extra_roots)
+    bad = [w for w in ex.all_writes if any(w[0] == r or w[0].startswith(r + ".") for r in roots)]
+    fv.add("stores-nothing-on-the-component", "all-paths", [], z3.BoolVal(not bad))
+    return bad
